@@ -81,9 +81,17 @@ def operator_case(rep, rng, mesh, mi, small, pattern=None):
             seq.append(np.zeros((E, 2)))                           # zero
         else:
             seq.append(np.array([[rng.gauss(0, 1), rng.gauss(0, 1)] for _ in range(E)]))
-    ops = fresh_ops(mesh, fixed, fix_psi, seq[0])
-    for A in seq[1:]:
-        ops.set_link_exponents(A)
+    if mi % 3 == 2:
+        # the caller keeps ONE array, updates it in place and hands the same object over each time
+        buf = seq[0].copy()
+        ops = fresh_ops(mesh, fixed, fix_psi, buf)
+        for A in seq[1:]:
+            buf[:] = A
+            ops.set_link_exponents(buf)
+    else:
+        ops = fresh_ops(mesh, fixed, fix_psi, seq[0])
+        for A in seq[1:]:
+            ops.set_link_exponents(A)
     ref = fresh_ops(mesh, fixed, fix_psi, seq[-1])
     case = {"mesh": mi, "sites": len(mesh.sites), "edges": E, "mode": mode, "fixed": len(fixed), "seq_len": L}
     if not same_matrix(ops.psi_laplacian, ref.psi_laplacian):
